@@ -160,9 +160,9 @@ class DiagonalNormal(Distribution):
                 )
             )
 
-        # Compute parameters.
-        means = self.mean_
-        log_stds = self.log_std_
+        # Compute parameters (stored flat, broadcast over the batch in the event shape).
+        means = self.mean_.reshape(1, *self._shape)
+        log_stds = self.log_std_.reshape(1, *self._shape)
 
         # Compute log prob.
         norm_inputs = (inputs - means) * torch.exp(-log_stds)
@@ -177,4 +177,8 @@ class DiagonalNormal(Distribution):
         raise NotImplementedError()
 
     def _mean(self, context):
-        return self.mean
+        mean = self.mean_.reshape(self._shape)
+        if context is None:
+            return mean
+        # As for StandardNormal, only the size of the context is taken into account.
+        return mean.expand(context.shape[0], *self._shape)
